@@ -7,6 +7,7 @@ grammatical order, on every path through the optional clauses.  wf/empty: an inc
 (commute/pair is reported as not covered yet.)"""
 from __future__ import annotations
 
+import os
 import re
 
 import z3
@@ -287,9 +288,147 @@ def check_order(item):
     return obs
 
 
+def syntactic_rw(ci, fi, seen=None):
+    import ast
+    seen = set() if seen is None else seen
+    if fi.qual in seen:
+        return {}, set()
+    seen.add(fi.qual)
+    W, R = {}, set()
+    for n in ast.walk(fi.node):
+        if isinstance(n, ast.Attribute) and isinstance(n.value, ast.Name) and n.value.id == "self":
+            if isinstance(n.ctx, ast.Store):
+                W.setdefault(n.attr, set()).add("value")
+            else:
+                res = ci.resolve(n.attr)
+                if res and res[0] == "func":
+                    w2, r2 = syntactic_rw(ci, res[1], seen)
+                    for k, v in w2.items():
+                        W.setdefault(k, set()).update(v)
+                    R |= r2
+                else:
+                    R.add(n.attr)
+        if isinstance(n, ast.Call) and isinstance(n.func, ast.Attribute) and isinstance(n.func.value, ast.Attribute) \
+                and isinstance(n.func.value.value, ast.Name) and n.func.value.value.id == "self" \
+                and n.func.attr in ("append", "extend", "add", "update", "insert", "remove", "clear", "pop"):
+            W.setdefault(n.func.value.attr, set()).add(n.func.attr)
+        if isinstance(n, ast.AugAssign) and isinstance(n.target, ast.Attribute) and \
+                isinstance(n.target.value, ast.Name) and n.target.value.id == "self":
+            W.setdefault(n.target.attr, set()).add("value")
+    return W, R
+
+
+def rw_sets(ci, mname):
+    """(written slots with the kinds of values, read slots) of the body of a builder method (without the copy)"""
+    from . import c01
+    fi = ci.resolve(mname)[1]
+    run = run_function(fi, ci, undecorated=True, pre=c01._pre)
+    if run.error:
+        # outside the executor's Python subset: syntactic over-approximation of the read and write sets (every
+        # self.X mentioned in the body and, transitively, in the methods it calls on self)
+        return syntactic_rw(ci, fi) + (None,)
+    W = {}
+    for o in run.outcomes:
+        for w in o.state.writes:
+            if w.path == "self" and w.kind == "attr":
+                W.setdefault(w.attr, set()).add("const-true" if repr(w.value) == "K(True)" else "value")
+            elif w.path.startswith("self.") and not w.owned:
+                W.setdefault(w.path.split(".")[1].split("[")[0], set()).add(w.kind)
+    R = {n for (p, n) in run.ex.reads_global if p == "self"}
+    return W, R, None
+
+
+def check_commute(cq):
+    """commute/reads, commute/writes: Bernstein's conditions between builder methods that address different clauses -
+    a method reads no slot that a method of another clause writes, and two methods of different clauses write no
+    common slot (except flags that every writer only ever sets to True)"""
+    from contracts.spec.clauses import AUXILIARY, CLAUSE, NOT_CLAUSE_CALLS
+    r = repo()
+    ci = r.classes[cq]
+    name = ci.short
+    meths = sorted({n for k in ci.mro for n, f in k.methods.items() if "builder" in f.decorators} - NOT_CLAUSE_CALLS)
+    info, obs = {}, []
+    for m in meths:
+        W, R, err = rw_sets(ci, m)
+        if err:
+            obs.append(Obligation(PROP, f"{name}|commute/reads|{m}", "commute/reads", f"{name}.{m}", UNSUPPORTED,
+                                  reason=err))
+            continue
+        info[m] = (W, R)
+    unknown = sorted({a for W, R in info.values() for a in W if a not in CLAUSE and a not in AUXILIARY})
+    obs.append(Obligation(PROP, f"{name}|commute/clause-table", "commute/clause-table", name,
+                          REFUTED if unknown else PROVED, backend="syntactic",
+                          detail="every slot written by a builder method is assigned to a clause (or declared auxiliary)",
+                          reason=f"slots without a clause: {unknown}" if unknown else "",
+                          witness={"family": "call", "oracle": "commute", "args": [name, "", "", []]}))
+    pending = []        # Bernstein's condition fails: decided by a bounded witness search on the real code
+    clause = {m: {CLAUSE[a] for a in W if a in CLAUSE} for m, (W, R) in info.items()}
+    different = lambda a, b: a != b and not (clause[a] & clause[b])
+    for m, (W, R) in sorted(info.items()):
+        for x in sorted(R):
+            if x in ("immutable", "_wrapper_cls"):
+                continue
+            writers = sorted(w for w, (W2, _R2) in info.items() if different(m, w) and x in W2 and
+                             not (W2[x] == {"const-true"} and x in AUXILIARY and False))
+            ob = Obligation(PROP, f"{name}|commute/reads|{m}|{x}", "commute/reads", f"{name}.{m}",
+                            REFUTED if writers else PROVED,
+                            detail=f"{m}() reads {x}; methods of other clauses writing it: {writers or 'none'}",
+                            reason=f"the effect of {m}() may depend on whether {writers} ran before it" if writers else "",
+                            witness={"family": "call", "oracle": "commute", "args": [name, m, x, writers]})
+            obs.append(ob)
+            if writers:
+                pending.append(ob)
+    ms = sorted(info)
+    for i, a in enumerate(ms):
+        for b in ms[i + 1:]:
+            if not different(a, b):
+                continue
+            common = sorted(set(info[a][0]) & set(info[b][0]))
+            for x in common:
+                sticky = info[a][0][x] == {"const-true"} and info[b][0][x] == {"const-true"}
+                ob = Obligation(PROP, f"{name}|commute/writes|{a}|{b}|{x}", "commute/writes", f"{name}.{a}",
+                                PROVED if sticky else REFUTED,
+                                detail=f"{a}() and {b}() address different clauses and both write {x}"
+                                       f"{': both only ever set it to True' if sticky else ''}",
+                                reason="" if sticky else f"the last writer of {x} wins: the result may depend on the order",
+                                witness={"family": "call", "oracle": "commute", "args": [name, a, x, [b]]})
+                obs.append(ob)
+                if not sticky:
+                    pending.append(ob)
+    # Bernstein's conditions are sufficient, not necessary: where they fail, a bounded search for two call orders that
+    # render differently decides between a violation (with the failing input) and a bounded stand-in
+    if pending:
+        import json
+        import subprocess
+        from ..main import REPLAY_PY
+        from ..oblig import VERIF, BOUNDED_OK
+        req = [[ob.witness["oracle"], ob.witness["args"]] for ob in pending]
+        try:
+            pr = subprocess.run([REPLAY_PY, os.path.join(VERIF, "replaylib", "batch.py")], input=json.dumps(req),
+                                capture_output=True, text=True, timeout=600,
+                                env=dict(os.environ, PYTHONDONTWRITEBYTECODE="1"))
+            res = json.loads(pr.stdout)
+        except Exception as e:
+            res = None
+            for ob in pending:
+                ob.status, ob.reason = UNKNOWN, f"witness search failed: {e!r}"
+        if res is not None:
+            for ob, w in zip(pending, res):
+                if w:
+                    ob.reason = f"{ob.reason}; witness: {w}"
+                else:
+                    ob.status = BOUNDED_OK
+                    ob.bounded = ("Bernstein's condition fails; no order dependence found for 9 base builders x 13 x 13 "
+                                  "argument tuples x both call orders (replaylib.oracles.commute)")
+                    ob.backend = "bounded-witness-search"
+    return obs
+
+
 def _dispatch(item):
     if item[0] == "$order":
         return check_order(item[1:])
+    if item[0] == "$commute":
+        return check_commute(item[1])
     return check_balanced(item)
 
 
@@ -303,9 +442,13 @@ def generate(tier="quick"):
         for ci in r.subclasses(base):
             res = ci.resolve("get_sql")
             items.append(("$order", res[1].qual, ci.qual, []))
+    for ci in r.subclasses(r.cls("queries.QueryBuilder")):
+        items.append(("$commute", ci.qual, None, []))
     obs = parallel(_dispatch, items)
     return obs, {"functions": sorted({x[0] for x in t}), "closed_world": sorted({c for x in t for c in x[2]}),
                  "assumptions": ["clause-order tables in pyvc/props/c13.py / contracts/spec/grammar.py transcribe the "
                                  "dialect grammars named in the property",
-                                 "commute/pair (order-independence of commuting calls) is NOT covered by this check "
-                                 "yet; acceptance by SQLite's parser is the engine's (not covered)"]}
+                                 "commute: Bernstein's conditions over the read/write sets of the real builder bodies "
+                                 "(sufficient for commutation; the converse is decided by the replay); the clause of "
+                                 "each slot is declared in contracts/spec/clauses.py",
+                                 "acceptance by SQLite's parser is the engine's (not covered)"]}
